@@ -285,6 +285,7 @@ func newClientPipe(rd, stderr io.Reader, wr io.WriteCloser, wait func() error, o
 		defer c.clientConn.wg.Done()
 
 		if err := c.clientConn.recv(); err != nil {
+			verifHook(vhCliBeforeBroadcast, 0, 0, nil)
 			c.clientConn.broadcastErr(err)
 		}
 	}()
